@@ -330,10 +330,11 @@ func init() {
 			nRand := int64(30000)
 			n1, n2, n3 := c02Grid1(), c02Grid2(), c02Grid3()
 			n4 := c02Grid4()
+			n5 := c02Grid5()
 			if tier == "thorough" {
 				nRand = 1500000
 			}
-			return &fw.Plan{N: n1 + n2 + n3 + n4 + nRand,
+			return &fw.Plan{N: n1 + n2 + n3 + n4 + n5 + nRand,
 				Subspaces: []string{fmt.Sprintf("grid of %d (length, position, predicate form, head shape) cases", n1), fmt.Sprintf("stacked grid of %d cases", n2), fmt.Sprintf("per-item predicate value grid of %d cases", n3)},
 				Run: func(i int64, r *fw.Rec) {
 					if i < n1+n2 {
@@ -351,7 +352,12 @@ func init() {
 						runPathCase(r, tree, doc, tag, false, &jast.Style{})
 						return
 					}
-					i -= n4
+					if i < n1+n2+n3+n4+n5 {
+						tree, doc, tag := c02Case5(i - n1 - n2 - n3 - n4)
+						runPathCase(r, tree, doc, tag, false, &jast.Style{})
+						return
+					}
+					i -= n4 + n5
 					rr := prng.New(seed, 0xC02, uint64(i))
 					g := &pathGen{r: rr, preds: true, tags: map[string]bool{}}
 					tree := g.program()
